@@ -967,4 +967,392 @@ theorem lq_step (ops : List Pos) (depth : Nat) (s s' : S) (l : L) (hi' : InvPh o
           | (simp only [setPh, setW] at hl; split at hl <;> simp_all [late])
     · cases hs
 
+/-! ### the measure -/
+
+def sumWk (s : S) (g : W → Nat) : Nat := ((List.range s.n).map (fun k => g (s.ws k))).sum
+
+theorem sum_range_upd (ws : Nat → W) (g : W → Nat) (k : Nat) (w : W) : ∀ n, k < n →
+    ((List.range n).map (fun j => g (if j = k then w else ws j))).sum + g (ws k)
+      = ((List.range n).map (fun j => g (ws j))).sum + g w := by
+  intro n
+  induction n with
+  | zero => intro h; omega
+  | succ n ih =>
+    intro h
+    rw [List.range_succ, List.map_append, List.map_append, List.sum_append, List.sum_append]
+    simp only [List.map_cons, List.map_nil, List.sum_cons, List.sum_nil, Nat.add_zero]
+    by_cases hk : k = n
+    · subst hk
+      have hsame : (List.range k).map (fun j => g (if j = k then w else ws j)) = (List.range k).map (fun j => g (ws j)) := by
+        apply List.map_congr_left
+        intro j hj
+        have : j ≠ k := by have := List.mem_range.1 hj; omega
+        simp [this]
+      rw [hsame]; simp; omega
+    · have := ih (by omega)
+      have hn : ¬ (n = k) := fun e => hk e.symm
+      simp only [hn, if_false]
+      omega
+
+theorem sumWk_setW (s s' : S) (g : W → Nat) (k : Nat) (w : W) (hk : k < s.n) (hn : s'.n = s.n)
+    (hws : s'.ws = fun j => if j = k then w else s.ws j) :
+    sumWk s' g + g (s.ws k) = sumWk s g + g w := by
+  unfold sumWk; rw [hn, hws]
+  exact sum_range_upd s.ws g k w s.n hk
+
+def pcRank (s : S) : Nat :=
+  match s.pc with
+  | .seeding _ => 2 * s.n + 20
+  | .starting j => 2 * s.n + 10 - j
+  | .releasing _ => s.n + 9
+  | .idle => s.n + 8
+  | .dlocked => s.n + 7
+  | .closing => s.n + 6
+  | .closed => s.n + 5
+  | .joined => s.n + 4
+  | .joining j => s.n + 1 - j
+  | .returned => 0
+
+/-- distance of a worker from the next thing it has to do: take the lock (flag down) or exit (flag up) -/
+def wrank (flag : Bool) : W → Nat
+  | .ready => 6
+  | .afterEmpty => if flag then 2 else 5
+  | .top => 4
+  | .locked => 3
+  | _ => 0
+
+def phaseW (ops : List Pos) (s : S) : Nat := sumP ops s phW
+def workW (s : S) : Nat := sumWk s (wrank s.flag)
+
+def Lt (ops : List Pos) (s' s : S) : Prop :=
+  phaseW ops s' < phaseW ops s ∨ (phaseW ops s' = phaseW ops s ∧ pcRank s' < pcRank s) ∨
+    (phaseW ops s' = phaseW ops s ∧ pcRank s' = pcRank s ∧ workW s' < workW s)
+
+theorem lt_phase (ops : List Pos) (s s' : S) (p : Pos) (f : Phase) (hnd : ops.Nodup) (hp : p ∈ ops)
+    (hph : s'.ph = fun q => if q = p then f else s.ph q) (hr : (s.ph p).rank < f.rank) : Lt ops s' s := by
+  left
+  have := sumP_setPh ops s s' phW p f hnd hp hph
+  have h8 : f.rank ≤ 8 := by cases f <;> simp [Phase.rank]
+  unfold phaseW
+  simp only [phW] at this
+  omega
+
+theorem lt_pc (ops : List Pos) (s s' : S) (hph : s'.ph = s.ph) (hr : pcRank s' < pcRank s) : Lt ops s' s := by
+  right; left
+  exact ⟨sumP_congr ops s s' phW (fun q _ => by rw [hph]), hr⟩
+
+theorem lt_worker (ops : List Pos) (s s' : S) (k : Nat) (w : W) (hk : k < s.n) (hph : s'.ph = s.ph) (hn : s'.n = s.n)
+    (hpc : s'.pc = s.pc) (hf : s'.flag = s.flag) (hws : s'.ws = fun j => if j = k then w else s.ws j)
+    (hr : wrank s.flag w < wrank s.flag (s.ws k)) : Lt ops s' s := by
+  right; right
+  refine ⟨sumP_congr ops s s' phW (fun q _ => by rw [hph]), by unfold pcRank; rw [hpc, hn], ?_⟩
+  have := sumWk_setW s s' (wrank s.flag) k w hk hn hws
+  unfold workW; rw [hf]; omega
+
+/-! ### enabled, measure-decreasing transitions -/
+
+theorem prog_rflush (ops : List Pos) (hnd : ops.Nodup) (s : S) (p : Pos) (hp : p ∈ ops) (h : s.ph p = .rbuf) :
+    ∃ l s', step s l = some s' ∧ Lt ops s' s :=
+  ⟨.rflush p, setPh s p .rpipe, by simp [step, h], lt_phase ops s _ p .rpipe hnd hp rfl (by rw [h]; simp [Phase.rank])⟩
+
+theorem prog_dflush (ops : List Pos) (hnd : ops.Nodup) (s : S) (p : Pos) (k : Nat) (hp : p ∈ ops) (h : s.ph p = .dbuf k) :
+    ∃ l s', step s l = some s' ∧ Lt ops s' s :=
+  ⟨.dflush k p, setPh s p .dpipe, by simp [step, h], lt_phase ops s _ p .dpipe hnd hp rfl (by rw [h]; simp [Phase.rank])⟩
+
+theorem prog_cbBegin (ops : List Pos) (hnd : ops.Nodup) (s : S) (p : Pos) (k : Nat) (hp : p ∈ ops) (hk : k < s.n)
+    (h : s.ph p = .have k) : ∃ l s', step s l = some s' ∧ Lt ops s' s :=
+  ⟨.cbBegin k p, { setPh s p (.running k) with log := s.log ++ [.cbBegin p] }, by simp [step, h, hk],
+    lt_phase ops s _ p (.running k) hnd hp rfl (by rw [h]; simp [Phase.rank])⟩
+
+theorem prog_cbEnd (ops : List Pos) (hnd : ops.Nodup) (s : S) (p : Pos) (k : Nat) (hp : p ∈ ops) (hk : k < s.n)
+    (h : s.ph p = .running k) : ∃ l s', step s l = some s' ∧ Lt ops s' s :=
+  ⟨.cbEnd k p, { setPh s p (.ran k) with log := s.log ++ [.cbEnd p] }, by simp [step, h, hk],
+    lt_phase ops s _ p (.ran k) hnd hp rfl (by rw [h]; simp [Phase.rank])⟩
+
+theorem prog_dput (ops : List Pos) (hnd : ops.Nodup) (s : S) (p : Pos) (k : Nat) (hp : p ∈ ops) (hk : k < s.n)
+    (h : s.ph p = .ran k) (hw : s.ws k = .busy) (hcap : s.cap = 0 ∨ s.dout < s.cap) : ∃ l s', step s l = some s' ∧ Lt ops s' s :=
+  ⟨.dput k p, { setW (setPh s p (.dbuf k)) k .top with dout := s.dout + 1 }, by simp [step, h, hk, hw, hcap],
+    lt_phase ops s _ p (.dbuf k) hnd hp rfl (by rw [h]; simp [Phase.rank])⟩
+
+theorem prog_rrecv (ops : List Pos) (hnd : ops.Nodup) (s : S) (p : Pos) (k : Nat) (hp : p ∈ ops) (hk : k < s.n)
+    (h : s.ph p = .rpipe) (hl : s.rlock = some k) (hw : s.ws k = .locked) : ∃ l s', step s l = some s' ∧ Lt ops s' s :=
+  ⟨.rrecv k p, { setPh (setW s k .busy) p (.have k) with rlock := none }, by simp [step, h, hk, hw, hl],
+    lt_phase ops s _ p (.have k) hnd hp rfl (by rw [h]; simp [Phase.rank])⟩
+
+theorem prog_seed (ops : List Pos) (hnd : ops.Nodup) (s : S) (p : Pos) (rest : List Pos) (hp : p ∈ ops)
+    (hpc : s.pc = .seeding (p :: rest)) (h : s.ph p = .waiting) : ∃ l s', step s l = some s' ∧ Lt ops s' s :=
+  ⟨.seed p, { setPh s p .rbuf with pc := if rest = [] then .starting 0 else .seeding rest }, by simp [step, h, hpc],
+    lt_phase ops s _ p .rbuf hnd hp rfl (by rw [h]; simp [Phase.rank])⟩
+
+theorem prog_release (ops : List Pos) (hnd : ops.Nodup) (s : S) (p : Pos) (hp : p ∈ ops)
+    (hpc : s.pc = .releasing p) (h : s.ph p = .waiting) : ∃ l s', step s l = some s' ∧ Lt ops s' s :=
+  ⟨.release p, { setPh s p .rbuf with pc := .idle }, by simp [step, h, hpc],
+    lt_phase ops s _ p .rbuf hnd hp rfl (by rw [h]; simp [Phase.rank])⟩
+
+theorem drecv_enabled (s : S) (p : Pos) (hpc : s.pc = .dlocked) (h : s.ph p = .dpipe) : ∃ s', step s (.drecv p) = some s' := by
+  simp only [step, hpc, h, and_self, if_true, bump]
+  by_cases e1 : (Gen.walk_stop_on_apex = true ∧ p = s.apex)
+  · rw [if_pos e1]; exact ⟨_, rfl⟩
+  · rw [if_neg e1]
+    by_cases e2 : Gen.walk_release (Gen.walk_flags_update (s.mask p.parent) (Gen.walk_bit_num (p.x % 2) (p.y % 2))) = true
+    · simp only [e2, if_true]; exact ⟨_, rfl⟩
+    · simp only [e2, Bool.false_eq_true, if_false]; exact ⟨_, rfl⟩
+
+theorem prog_drecv (ops : List Pos) (hnd : ops.Nodup) (s : S) (p : Pos) (hp : p ∈ ops)
+    (hpc : s.pc = .dlocked) (h : s.ph p = .dpipe) : ∃ l s', step s l = some s' ∧ Lt ops s' s := by
+  obtain ⟨s', hs⟩ := drecv_enabled s p hpc h
+  obtain ⟨_, _, hph, _⟩ := drecv_effect s s' p hs
+  exact ⟨.drecv p, s', hs, lt_phase ops s s' p .retired hnd hp hph (by rw [h]; simp [Phase.rank])⟩
+
+theorem prog_dlock (ops : List Pos) (s : S) (hpc : s.pc = .idle) : ∃ l s', step s l = some s' ∧ Lt ops s' s :=
+  ⟨.dlock, { s with pc := .dlocked }, by simp [step, hpc], lt_pc ops s _ rfl (by simp [pcRank, hpc])⟩
+
+theorem prog_close (ops : List Pos) (s : S) (hpc : s.pc = .closing) : ∃ l s', step s l = some s' ∧ Lt ops s' s :=
+  ⟨.close, { s with pc := .closed }, by simp [step, hpc], lt_pc ops s _ rfl (by simp [pcRank, hpc])⟩
+
+theorem prog_joinThread (ops : List Pos) (s : S) (hpc : s.pc = .closed) : ∃ l s', step s l = some s' ∧ Lt ops s' s :=
+  ⟨.joinThread, { s with pc := .joined }, by simp [step, hpc], lt_pc ops s _ rfl (by simp [pcRank, hpc])⟩
+
+theorem prog_setFlag (ops : List Pos) (s : S) (hpc : s.pc = .joined) : ∃ l s', step s l = some s' ∧ Lt ops s' s :=
+  ⟨.setFlag, { s with pc := .joining 0, flag := true }, by simp [step, hpc], lt_pc ops s _ rfl (by simp [pcRank, hpc])⟩
+
+theorem prog_join (ops : List Pos) (s : S) (k : Nat) (hpc : s.pc = .joining k) (hk : k < s.n) (hw : s.ws k = .exited) :
+    ∃ l s', step s l = some s' ∧ Lt ops s' s := by
+  refine ⟨.join k, { s with pc := if k + 1 = s.n then .returned else .joining (k + 1) }, by simp [step, hpc, hk, hw], ?_⟩
+  refine lt_pc ops s _ rfl ?_
+  simp only [pcRank, hpc]
+  have h1 : 0 < s.n + 1 - k := by omega
+  have h2 : s.n + 1 - (k + 1) < s.n + 1 - k := by omega
+  by_cases e : k + 1 = s.n
+  · rw [if_pos e]; exact h1
+  · rw [if_neg e]; exact h2
+
+theorem prog_start (ops : List Pos) (s : S) (k : Nat) (hpc : s.pc = .starting k) (hk : k < s.n) (hw : s.ws k = .notStarted) :
+    ∃ l s', step s l = some s' ∧ Lt ops s' s := by
+  refine ⟨.start k, { setW s k .ready with pc := if k + 1 = s.n then .idle else .starting (k + 1) }, by simp [step, hpc, hk, hw], ?_⟩
+  refine lt_pc ops s _ rfl ?_
+  simp only [pcRank, hpc]
+  have h1 : s.n + 8 < 2 * s.n + 10 - k := by omega
+  have h2 : 2 * s.n + 10 - (k + 1) < 2 * s.n + 10 - k := by omega
+  by_cases e : k + 1 = s.n
+  · rw [if_pos e]; exact h1
+  · rw [if_neg e]; exact h2
+
+/-- a started worker that holds no tile and has not exited moves towards its next action, provided the reader lock is free
+or the done flag is up -/
+theorem advance (ops : List Pos) (s : S) (lw : LW s) (k : Nat) (hk : k < s.n) (hns : s.ws k ≠ .notStarted) (hnb : s.ws k ≠ .busy)
+    (hne : s.ws k ≠ .exited) (hcond : s.flag = true ∨ s.rlock = none) : ∃ l s', step s l = some s' ∧ Lt ops s' s := by
+  cases hw : s.ws k with
+  | notStarted => exact absurd hw hns
+  | busy => exact absurd hw hnb
+  | exited => exact absurd hw hne
+  | ready =>
+    refine ⟨.begin k, setW s k .top, by simp [step, hk, hw], ?_⟩
+    exact lt_worker ops s _ k .top hk rfl rfl rfl rfl rfl (by rw [hw]; simp [wrank])
+  | afterEmpty =>
+    refine ⟨.flagQ k s.flag, setW s k (if s.flag then .exited else .top), by simp [step, hk, hw], ?_⟩
+    exact lt_worker ops s _ k _ hk rfl rfl rfl rfl rfl (by rw [hw]; cases s.flag <;> simp [wrank])
+  | locked =>
+    have hl : s.rlock = some k := (lw.lockIff k).2 ⟨hk, hw⟩
+    have hf : s.flag = true := by
+      rcases hcond with h | h
+      · exact h
+      · rw [hl] at h; cases h
+    refine ⟨.rempty k, { setW s k .afterEmpty with rlock := none }, by simp [step, hk, hw, hl], ?_⟩
+    exact lt_worker ops s _ k .afterEmpty hk rfl rfl rfl rfl rfl (by rw [hw, hf]; simp [wrank])
+  | top =>
+    cases hl : s.rlock with
+    | none =>
+      refine ⟨.rlock k, { setW s k .locked with rlock := some k }, by simp [step, hk, hw, hl], ?_⟩
+      exact lt_worker ops s _ k .locked hk rfl rfl rfl rfl rfl (by rw [hw]; simp [wrank])
+    | some m =>
+      have hf : s.flag = true := by
+        rcases hcond with h | h
+        · exact h
+        · rw [hl] at h; cases h
+      have hmk : m ≠ k := by
+        intro e; subst e
+        have := ((lw.lockIff m).1 hl).2
+        rw [hw] at this; cases this
+      have hother : lockedByOther s k = true := by simp [lockedByOther, hl, hmk]
+      refine ⟨.rlockTimeout k, setW s k .afterEmpty, by simp [step, hk, hw, hother], ?_⟩
+      exact lt_worker ops s _ k .afterEmpty hk rfl rfl rfl rfl rfl (by rw [hw, hf]; simp [wrank])
+
+/-! ### facts about quiescent states -/
+
+theorem level_ge (ops : List Pos) (apex : Pos) (depth : Nat) (seeds : List Pos) (pre : Pos → Nat)
+    (cfg : Cfg ops apex depth seeds pre) : ∀ (m : Nat) (q : Pos), q ∈ ops → q.n = m → apex.n ≤ q.n := by
+  intro m
+  induction m using Nat.strongRecOn with
+  | _ m ih =>
+    intro q hq hm
+    by_cases hqa : q = apex
+    · rw [hqa]; exact Nat.le_refl _
+    · obtain ⟨h1, h2⟩ := cfg.parentIn q hq hqa
+      have := ih (q.parent.n) (by simp only [Pos.parent]; omega) q.parent h2 rfl
+      simp only [Pos.parent] at this; omega
+
+theorem all_retired (ops : List Pos) (apex : Pos) (depth : Nat) (seeds : List Pos) (pre : Pos → Nat)
+    (cfg : Cfg ops apex depth seeds pre) (s : S) (h : InvPh ops depth s) (hap : s.ph apex = .retired) :
+    ∀ p ∈ ops, s.ph p = .retired := by
+  intro p hp
+  have hge := level_ge ops apex depth seeds pre cfg _ p hp rfl
+  exact retired_down ops apex depth seeds pre cfg s h hap (p.n - apex.n) p hp (by omega)
+
+theorem sumP_zero (ops : List Pos) (s : S) (g : Phase → Nat) (h : ∀ q ∈ ops, g (s.ph q) = 0) : sumP ops s g = 0 := by
+  unfold sumP
+  induction ops with
+  | nil => rfl
+  | cons a as ih =>
+    simp only [List.map_cons, List.sum_cons]
+    rw [h a (by simp), ih (fun q hq => h q (by simp [hq]))]
+
+/-- while the dispatcher is in its loop, it is not the case that every operation is either waiting or retired: a waiting
+operation of the deepest level would be an unseeded leaf-parent or a parent whose mask is full and was not released -/
+theorem not_quiescent (ops : List Pos) (apex : Pos) (depth : Nat) (seeds : List Pos) (pre : Pos → Nat)
+    (cfg : Cfg ops apex depth seeds pre) (s : S) (hi : InvPh ops depth s) (hw : InvW apex s) (lq : LQ ops depth s)
+    (hpc : s.pc = .idle ∨ s.pc = .dlocked) (hall : ∀ p ∈ ops, s.ph p = .waiting ∨ s.ph p = .retired) : False := by
+  have hnotw : ∀ (d : Nat) (p : Pos), p ∈ ops → depth - p.n = d → s.ph p ≠ .waiting := by
+    intro d
+    induction d using Nat.strongRecOn with
+    | _ d ih =>
+      intro p hp hd hpw
+      have hlv := cfg.level p hp
+      by_cases hleaf : p.n + 1 = depth
+      · obtain ⟨r, hr, _⟩ := lq.seedW p hp hleaf hpw
+        rcases hpc with e | e <;> rw [e] at hr <;> cases hr
+      · have hl : p.n + 1 < depth := by omega
+        have hfull : allBits (s.mask p) := by
+          intro k hk
+          rw [((hi.masks p hp hl hpw).2 k hk)]
+          by_cases hc : p.child k ∈ ops
+          · right
+            rcases hall _ hc with e | e
+            · exact absurd e (ih (depth - (p.child k).n) (by simp only [Pos.child]; omega) _ hc rfl)
+            · exact e
+          · left; exact hc
+        have := lq.full p hp hl hpw hfull
+        rcases hpc with e | e <;> rw [e] at this <;> cases this
+  have hap : s.ph apex ≠ .retired := by
+    have := lq.apexN (by rcases hpc with e | e <;> rw [e] <;> rfl)
+    rw [hw.apexC] at this; exact this
+  rcases hall apex cfg.apexIn with e | e
+  · exact hnotw _ apex cfg.apexIn rfl e
+  · exact hap e
+
+/-! ### progress -/
+
+/-- **Progress.**  In every state that satisfies the invariants and in which `walk` has not returned, some transition is
+enabled that decreases the measure. -/
+theorem progress (ops : List Pos) (apex : Pos) (depth : Nat) (seeds : List Pos) (pre : Pos → Nat)
+    (cfg : Cfg ops apex depth seeds pre) (s : S) (hi : InvPh ops depth s) (hw : InvW apex s) (lw : LW s) (lc : LC ops s)
+    (lh : LH s) (lq : LQ ops depth s) (hp : s.pc ≠ .returned) : ∃ l s', step s l = some s' ∧ Lt ops s' s := by
+  have hnd := cfg.nodup
+  have hn0 := lw.npos
+  have hin : ∀ p, s.ph p ≠ .waiting → p ∈ ops := by
+    intro p hp
+    by_cases e : p ∈ ops
+    · exact e
+    · exact absurd (hi.outside p e) hp
+  have main : (s.pc = .idle ∨ s.pc = .dlocked) → ∃ l s', step s l = some s' ∧ Lt ops s' s := by
+    intro hpc
+    have hflag : s.flag = false := by
+      cases hf : s.flag with
+      | false => rfl
+      | true => rcases lw.flagIff.1 hf with ⟨j, e⟩ | e <;> rcases hpc with e' | e' <;> rw [e'] at e <;> cases e
+    have hst : ∀ k, k < s.n → s.ws k ≠ .notStarted := by
+      intro k hk e
+      rcases (lw.ns k hk).1 e with ⟨r, e2⟩ | ⟨j, e2, _⟩ <;> rcases hpc with e' | e' <;> rw [e'] at e2 <;> cases e2
+    by_cases h1 : ∃ p, s.ph p = .dpipe
+    · obtain ⟨p, h⟩ := h1
+      rcases hpc with e | e
+      · exact prog_dlock ops s e
+      · exact prog_drecv ops hnd s p (hin p (by rw [h]; simp)) e h
+    by_cases h2 : ∃ p, s.ph p = .rbuf
+    · obtain ⟨p, h⟩ := h2
+      exact prog_rflush ops hnd s p (hin p (by rw [h]; simp)) h
+    by_cases h3 : ∃ p k, s.ph p = .dbuf k
+    · obtain ⟨p, k, h⟩ := h3
+      exact prog_dflush ops hnd s p k (hin p (by rw [h]; simp)) h
+    by_cases h4 : ∃ p k, s.ph p = .have k
+    · obtain ⟨p, k, h⟩ := h4
+      exact prog_cbBegin ops hnd s p k (hin p (by rw [h]; simp)) (lh.held p k (by rw [h]; rfl)).1 h
+    by_cases h5 : ∃ p k, s.ph p = .running k
+    · obtain ⟨p, k, h⟩ := h5
+      exact prog_cbEnd ops hnd s p k (hin p (by rw [h]; simp)) (lh.held p k (by rw [h]; rfl)).1 h
+    by_cases h6 : ∃ p k, s.ph p = .ran k
+    · obtain ⟨p, k, h⟩ := h6
+      obtain ⟨hk, hwk⟩ := lh.held p k (by rw [h]; rfl)
+      have hd0 : s.dout = 0 := by
+        have : s.dout = sumP ops s isD := lc
+        rw [this]
+        apply sumP_zero
+        intro q _
+        cases hq : s.ph q with
+        | dbuf j => exact absurd ⟨q, j, hq⟩ h3
+        | dpipe => exact absurd ⟨q, hq⟩ h1
+        | _ => rfl
+      exact prog_dput ops hnd s p k (hin p (by rw [h]; simp)) hk h hwk (by omega)
+    have hnobusy : ∀ k, k < s.n → s.ws k ≠ .busy := by
+      intro k hk e
+      obtain ⟨p, hpk⟩ := lh.busy k hk e
+      cases hq : s.ph p with
+      | «have» j => exact h4 ⟨p, j, hq⟩
+      | running j => exact h5 ⟨p, j, hq⟩
+      | ran j => exact h6 ⟨p, j, hq⟩
+      | _ => rw [hq] at hpk; simp [heldBy] at hpk
+    by_cases h7 : ∃ p, s.ph p = .rpipe
+    · obtain ⟨p, h⟩ := h7
+      cases hl : s.rlock with
+      | some m =>
+        obtain ⟨hm, hwm⟩ := (lw.lockIff m).1 hl
+        exact prog_rrecv ops hnd s p m (hin p (by rw [h]; simp)) hm h hl hwm
+      | none => exact advance ops s lw 0 hn0 (hst 0 hn0) (hnobusy 0 hn0) (lw.noExit hflag 0) (Or.inr hl)
+    · exfalso
+      apply not_quiescent ops apex depth seeds pre cfg s hi hw lq hpc
+      intro q _
+      cases hq : s.ph q with
+      | waiting => left; rfl
+      | retired => right; rfl
+      | rbuf => exact absurd ⟨q, hq⟩ h2
+      | rpipe => exact absurd ⟨q, hq⟩ h7
+      | «have» j => exact absurd ⟨q, j, hq⟩ h4
+      | running j => exact absurd ⟨q, j, hq⟩ h5
+      | ran j => exact absurd ⟨q, j, hq⟩ h6
+      | dbuf j => exact absurd ⟨q, j, hq⟩ h3
+      | dpipe => exact absurd ⟨q, hq⟩ h1
+  cases hpc : s.pc with
+  | idle => exact main (Or.inl hpc)
+  | dlocked => exact main (Or.inr hpc)
+  | seeding r =>
+    obtain ⟨hne, _, hall⟩ := lq.seedS r hpc
+    cases r with
+    | nil => exact absurd rfl hne
+    | cons q rest => exact prog_seed ops hnd s q rest (hi.seeding _ hpc q (by simp)).1 hpc (hall q (by simp))
+  | starting j =>
+    have hj := lw.idxS j hpc
+    have hwj : s.ws j = .notStarted := (lw.ns j hj).2 (Or.inr ⟨j, hpc, Nat.le_refl _⟩)
+    exact prog_start ops s j hpc hj hwj
+  | releasing p =>
+    obtain ⟨a, _, c, _⟩ := hi.releasing p hpc
+    exact prog_release ops hnd s p a hpc c
+  | closing => exact prog_close ops s hpc
+  | closed => exact prog_joinThread ops s hpc
+  | joined => exact prog_setFlag ops s hpc
+  | returned => exact absurd hpc hp
+  | joining j =>
+    have hj := lw.idxJ j hpc
+    have hf : s.flag = true := lw.flagIff.2 (Or.inl ⟨j, hpc⟩)
+    have hapr : s.ph apex = .retired := hw.apexRetired (by rw [hpc]; rfl)
+    have hallr := all_retired ops apex depth seeds pre cfg s hi hapr
+    by_cases hex : s.ws j = .exited
+    · exact prog_join ops s j hpc hj hex
+    · refine advance ops s lw j hj ?_ ?_ hex (Or.inl hf)
+      · intro e
+        rcases (lw.ns j hj).1 e with ⟨r, e2⟩ | ⟨i, e2, _⟩ <;> rw [hpc] at e2 <;> cases e2
+      · intro e
+        obtain ⟨p, hpk⟩ := lh.busy j hj e
+        have hpin : p ∈ ops := hin p (by intro e2; rw [e2] at hpk; simp [heldBy] at hpk)
+        rw [hallr p hpin] at hpk; simp [heldBy] at hpk
+
 end C01Live
